@@ -183,7 +183,7 @@ func genHist(tier string, rng *h.Rng, emit func(string)) {
 								if att != 2 && rng.Intn(8) != 0 {
 									continue
 								}
-								if (n > 3 || b != n-1) && rng.Intn(6*(n-2)) != 0 {
+								if (n > 3 || b != n-1) && rng.Intn(6*(n-2)*(n-2)) != 0 {
 									continue
 								}
 							}
@@ -249,7 +249,7 @@ func genHist(tier string, rng *h.Rng, emit func(string)) {
 							if full && c.kind == "d" && rng.Intn(2) != 0 {
 								continue
 							}
-							if !full && rng.Intn(8*(n-2)) != 0 {
+							if !full && rng.Intn(10*(n-2)*(n-2)) != 0 {
 								continue
 							}
 						}
